@@ -8,6 +8,8 @@ f4_0:
   lea __start_wvset0(%rip),%rax
   lea __stop_wvset0(%rip),%rdx
   lea d_f4_0(%rip),%rax
+  mov wvsv1@GOTPCREL(%rip),%rax
+  mov wvsv0(%rip),%rax
   ret
 .section .data.d_f4_0,"aw",@progbits
 .globl d_f4_0
